@@ -73,7 +73,7 @@ func c12EnvServer(res *world.Result, logf func(string, ...interface{}), h *world
 	srv := ienvelope.NewServer(binary.Default, mux)
 	// --- through the client
 	target := svcNames[ch("env.target", len(svcNames))]
-	method := []string{"get", "a:b", "x:y:z", "", "M\xffq"}[ch("env.method", 5)]
+	method := []string{"get", "a:b", "x:y:z", "", "M\xffq", target + ":get", target + ":" + target + ":x", ":" + target}[ch("env.method", 8)]
 	body := genVal(ref.TStruct, 0, genOpts{maxDepth: 2})
 	tr := &loopTransport{srv: srv}
 	cl := multiplex.NewClient(target, ienvelope.NewClient(binary.Default, tr))
